@@ -153,7 +153,10 @@ inductive Cls where
        -- `rewardAccount_total`, `addRewards_total`, `slashEscrowSteps_total`, `onEpochChange_total`,
        -- `beginBlock_total`, `endBlock_total`, `runChain_total`) and `Props/C10Tally.lean`
        -- (`tally_total`, `closeProposal_total`, `closeAll_total`), each under hypotheses shown necessary by a
-       -- witness; argued-only remain: the two `FromInt64(len …)` imports, `SetDebondingDelegation` merging
+       -- witness; the roothash slashed-funds split (`slashing.go`: Add, Mul, Quo(100), Sub, Quo(n)) by
+       -- `Props/C10Slash.lean` (`distribute_total`, `incorrectResults_total` for every percentage that
+       -- `RuntimeStakingParameters.ValidateBasic` admits, necessity `distribute_needs_percentage`, tie:
+       -- regenerated `Generated/SlashFacts` + `rhdrv -dist` against `om_slash`); argued-only remain: the two `FromInt64(len …)` imports, `SetDebondingDelegation` merging
        -- (onEpochChange passes nil) and the scheduler's voting-power computation (bounded by the genesis
        -- total-supply check)
   | P  -- the documented precondition: enough stake-eligible validators remain to elect a validator
@@ -240,11 +243,11 @@ def ledger : List (String × List (String × Cls)) := [
     ("messages.go:verifyRuntimeMessages:fmt.Errorf(failed to verify incoming messages hash)", .F),
     ("messages.go:removeRuntimeMessages:fmt.Errorf(failed to fetch incoming message queue metadata:)", .F),
     ("finalization.go:tryFinalizeRoundInsideTx:fmt.Errorf(cometbft/roothash: getting node %s: %w)", .F),
-    ("slashing.go:onRuntimeIncorrectResults:fmt.Errorf(cometbft/roothash: totalSlashed.Add(slashed): %w)", .F),
-    ("slashing.go:distributeSlashedFunds:fmt.Errorf(cometbft/roothash: runtimeAccReward.Mul: %w)", .F),
-    ("slashing.go:distributeSlashedFunds:fmt.Errorf(cometbft/roothash: runtimeAccReward.Quo(100): %w)", .F),
-    ("slashing.go:distributeSlashedFunds:fmt.Errorf(cometbft/roothash: remainingReward.Sub(runtimeAc)", .F),
-    ("slashing.go:distributeSlashedFunds:fmt.Errorf(cometbft/roothash: remainingReward.Quo(len(discr)", .F),
+    ("slashing.go:onRuntimeIncorrectResults:fmt.Errorf(cometbft/roothash: totalSlashed.Add(slashed): %w)", .M),
+    ("slashing.go:distributeSlashedFunds:fmt.Errorf(cometbft/roothash: runtimeAccReward.Mul: %w)", .M),
+    ("slashing.go:distributeSlashedFunds:fmt.Errorf(cometbft/roothash: runtimeAccReward.Quo(100): %w)", .M),
+    ("slashing.go:distributeSlashedFunds:fmt.Errorf(cometbft/roothash: remainingReward.Sub(runtimeAc)", .M),
+    ("slashing.go:distributeSlashedFunds:fmt.Errorf(cometbft/roothash: remainingReward.Quo(len(discr)", .M),
     ("finalization.go:finalizeBlock:rearmRoundTimeout(ctx)", .F)]),
   ("scheduler_BeginBlock", [
     ("scheduler.go:shouldElect:fmt.Errorf(cometbft/scheduler: couldn't get base epoch: %w)", .U),
